@@ -290,7 +290,7 @@ def run(ctx):
     res = Result()
     res.rule = ("one evaluation = one metric class evaluated on one circuit (default arguments, explicit penalty, log_steps=3); non-trivial = "
                 "the circuit has a two-qubit operation and a wrapper or identity; distinct by (registers, op list / edit history)")
-    drv = Driver()
+    drv = du.RDriver()
     rng = ctx.rng
     n_add = 500 if ctx.quick else 4000
     n_hist = 150 if ctx.quick else 1200
@@ -352,6 +352,8 @@ def run(ctx):
         if res.violations:
             break
     res.extra["driver_lines"] = drv.n_lines
+    if drv.restarts:
+        res.notes.append(f"model driver restarted {drv.restarts}x (request re-sent)")
     drv.close()
     return res
 
